@@ -781,6 +781,12 @@ func collectGuards(b *ssa.BasicBlock) markGuards {
 					// asked of the copy Unmark() returned: always unmarked, the test proves nothing
 					continue
 				}
+				if (ci.isCtyValueMethod("ContainsMarked") || ci.isCtyValueMethod("IsMarked")) && failedPlaceholder(b, c.Call.Args[0]) {
+					// asked of the result of an evaluation whose diagnostics were not found free
+					// of errors: a failed evaluation returns a placeholder, which need not carry
+					// the marks of the values it stands for (its type still names their keys)
+					continue
+				}
 				switch {
 				case ci.isCtyValueMethod("ContainsMarked"):
 					g.deep[normSubject(c.Call.Args[0])] = true
@@ -824,6 +830,69 @@ func collectGuards(b *ssa.BasicBlock) markGuards {
 		}
 	}
 	return g
+}
+
+// failedPlaceholder: v is the value result of a call that also returns hcl.Diagnostics
+// (an evaluation), and block b is not dominated by the false edge of HasErrors() on
+// diagnostics that include that call's.
+func failedPlaceholder(b *ssa.BasicBlock, v ssa.Value) bool {
+	for {
+		if ct, ok := v.(*ssa.ChangeType); ok {
+			v = ct.X
+			continue
+		}
+		break
+	}
+	ex, ok := v.(*ssa.Extract)
+	if !ok || ex.Index != 0 {
+		return false
+	}
+	call, ok := ex.Tuple.(*ssa.Call)
+	if !ok {
+		return false
+	}
+	var dg ssa.Value
+	for _, r := range *call.Referrers() {
+		if e2, ok := r.(*ssa.Extract); ok && e2.Index != 0 && isDiagnosticsType(e2.Type()) {
+			dg = e2
+		}
+	}
+	if dg == nil {
+		res := call.Call.Signature().Results()
+		for i := 0; i < res.Len(); i++ {
+			if isDiagnosticsType(res.At(i).Type()) {
+				return true // the diagnostics were discarded
+			}
+		}
+		return false
+	}
+	for cur := b; cur != nil; cur = cur.Idom() {
+		idom := cur.Idom()
+		if idom == nil {
+			break
+		}
+		iff, ok := idom.Instrs[len(idom.Instrs)-1].(*ssa.If)
+		if !ok || len(cur.Preds) != 1 {
+			continue
+		}
+		onTrue := idom.Succs[0] == cur
+		cond := iff.Cond
+		if u, ok := cond.(*ssa.UnOp); ok && u.Op == token.NOT {
+			cond = u.X
+			onTrue = !onTrue
+		}
+		hc, ok := cond.(*ssa.Call)
+		if !ok || onTrue || len(hc.Call.Args) == 0 {
+			continue
+		}
+		if cal := hc.Call.StaticCallee(); cal == nil || cal.Name() != "HasErrors" {
+			continue
+		}
+		if diagFlowsInto(dg, hc.Call.Args[0], map[ssa.Value]bool{}) {
+			return false
+		}
+	}
+	return true
 }
 
 var descendingValueMethods = map[string]bool{"Index": true, "GetAttr": true, "ElementIterator": true, "AsValueMap": true, "AsValueSlice": true,
